@@ -40,6 +40,14 @@ chk('C15','exploration',
     'Seeded stream simulation: 1-20 real encodings (1-5 octet tags up to 2^28, contents up to 70000 octets) written back to back, optional garbage, close in mid-message, seeded segmentation down to 1-byte dribble; the canonical reassembly consumer calls the real decode_length / decode_with_length; oracles after every segment (no wrong / premature / late length, exact consumption, same value, exactly-once in-order delivery) plus direct enumeration of every header prefix length and several tails per message.',
     'The consumer loop is harness code written from the documented contract; true message boundaries come from the harness-side TLV walker on encoder output.',
     'deterministic simulation: seeded byte-stream segmentation/close faults around the real framing helpers, history oracle (exactly-once, ordered)', 'DESIGN.md 3 C15')
+chk('C18','exploration',
+    'Seeded schedule simulation: one shared Specification, 1-8 real caller threads whose interleaving is decided line by line by the simulator (random switch p in {0.001..0.5}, PCT, round-robin, sequential), up to 50 mixed valid / corrupted / truncated / bit-flipped operations, optional MemoryError injected at an arbitrary tick; every outcome compared with the same call alone on a freshly compiled Specification; inputs compared before/after; post-state behaviour digest and sequential re-sweep.',
+    'Pre-emption granularity is one Python source line inside /repo/asn1tools; races inside a line or inside C code are not explored. Operations whose reference run exhausts the step budget are excluded.',
+    'deterministic simulation: baton-passing thread scheduler with seeded/explicit schedules, sequential reference model, fault injection (failing ops, allocation failure)', 'DESIGN.md 3 C18')
+chk('C13','exploration',
+    'Seeded histories on one shared parsed dictionary (up to 6 compile_dict calls over 8 codecs + an unknown codec x numeric_enums, interleaved with pre_process_dict, pformat/exec persistence in memory and through the real .py loading path, deepcopy, CLI double compile) compared after every compile with compile_string on a fresh parse (outcome class and behaviour digest); all 256 ordered (codec, flag) pairs enumerated on each corpus module.',
+    'Behavioural equality is decided on a seeded probe set per type (valid values, one corrupted value, one malformed input, decode_length prefixes), not on all values.',
+    'deterministic simulation: seeded operation histories over persistent shared state against a fresh-parse reference model, with persist/restore steps', 'DESIGN.md 3 C13')
 m = {
  'version': 1,
  'setup_cmd': '/venv/bin/python -m vsim.build',
@@ -51,6 +59,8 @@ m = {
    'add_only': True,
  },
  'engines': [
+   {'name':'threadsim','path':'vsim/sched.py','serves_properties':['C18'],'kind_free_text':'deterministic baton-passing scheduler over real threads; pre-emption at line events of a C-level step clock'},
+   {'name':'dicthist','path':'checks/c13.py','serves_properties':['C13'],'kind_free_text':'operation histories on one long-lived specification dictionary with persist/restore, against a fresh-parse reference'},
    {'name':'wire','path':'vsim/wire.py','serves_properties':['C08','C15','C16'],'kind_free_text':'simulated byte channel (datagram and stream) with explicit fault descriptors between a real encoder and a real decoder, under a deterministic step clock'},
  ],
  'checks': checks,
